@@ -294,6 +294,32 @@ class Body:
         return out
 
     # ---------------------------------------------------------------- statements, calls
+    def loop_depth(self, bi):
+        """number of natural loops (back edge u->h with h dominating u) whose body contains block bi"""
+        if getattr(self, "_loops", None) is None:
+            loops = []
+            for u in range(len(self.blocks)):
+                if self.is_cleanup(u):
+                    continue
+                for h in self.succs(u):
+                    if self.dominates(h, u):
+                        body = {h, u}
+                        st = [u]
+                        while st:
+                            x = st.pop()
+                            if x == h:
+                                continue
+                            for p in self.preds(x):
+                                if p not in body and not self.is_cleanup(p):
+                                    body.add(p)
+                                    st.append(p)
+                        loops.append((h, body))
+            merged = {}
+            for h, body in loops:
+                merged.setdefault(h, set()).update(body)
+            self._loops = merged
+        return sum(1 for body in self._loops.values() if bi in body)
+
     def stmts(self, cleanup=False):
         for bi, b in enumerate(self.blocks):
             if not cleanup and b["t"].get("cleanup"):
